@@ -22,6 +22,7 @@ RULE = (
     "worker sets {s1,s2}, {s1,s1}, {s1,s2,s1}, {s1,s2,stat}, {s1,s1,stat}, {s1,s2,s3} (thorough: + {s1,s2,s1,stat}, {s1,s1,s1,s2} and a 9000-character subject name whose row is flushed early) x "
     "{thread mode, forked-process mode} x initial file {header only, header + one finished subject s0}; ALL reachable states of the interleavings of lock acquisitions and file operations "
     "(evaluate = 8-9 scheduling points, make_statistic = 3; the unlocked compute phase is one step). transitions = single scheduling steps, each validated by replaying the real code from the initial state. "
+    "thorough additionally: line granularity - thread mode, 2 workers, one preemption before EVERY source line the preempted worker executes inside panoptica/* (about 5500 per evaluate), for worker sets {s1,s2}, {s1,s1}, {s1,stat} and either worker preempted; "
     "non-trivial = terminal states reached through at least one preemption; distinct by explored state. Toy programs with known state counts / a known race / a known deadlock validate the explorer in every run"
 )
 ASSUMPTIONS = [
@@ -45,8 +46,16 @@ SETS_Q = [("s1", "s2"), ("s1", "s1"), ("s1", "s2", "s1"), ("s1", "s2", "stat"), 
 SETS_T = SETS_Q + [("s1", "s2", "s1", "stat"), ("s1", "s1", "s1", "s2"), ("LONG", "s1"), ("LONG", "LONG", "stat")]
 
 
+LINE_SETS = [("s1", "s2"), ("s1", "s1"), ("s1", "stat")]
+
+
 def blocks(tier):
     B = [("toys",)]
+    if tier == "thorough":
+        for ws in LINE_SETS:
+            for first in (0, 1):
+                for lo in range(0, 7000, 250):
+                    B.append(("line", ws, first, lo, lo + 250))
     for ws in SETS_Q if tier == "quick" else SETS_T:
         for mode in ("thread", "process"):
             for init in ("header", "one_row"):
@@ -59,6 +68,9 @@ def blocks(tier):
 def run_block(block, acc):
     if block[0] == "toys":
         run_case({"kind": "toys"}, acc)
+    elif block[0] == "line":
+        _, ws, first, lo, hi = block
+        run_case({"kind": "line", "workers": list(ws), "first": first, "lo": lo, "hi": hi}, acc)
     else:
         _, ws, mode, init = block
         run_case({"kind": "set", "workers": list(ws), "mode": mode, "init": init}, acc)
@@ -133,9 +145,16 @@ def _row_values(header, row):
 def run_case(case, acc):
     if case["kind"] == "toys":
         return _toys(case, acc)
+    if case["kind"] == "line":
+        return _line(case, acc)
     workers, mode, init = case["workers"], case["mode"], case["init"]
     acc.case("set", tuple(workers), mode, init)
     fx = Fixture(init, workers)
+    judge = make_judge(acc, case, fx, workers, mode, init)
+    return _explore(acc, case, fx, workers, mode, init, judge)
+
+
+def make_judge(acc, case, fx, workers, mode, init):
     submitted = [_name(w) for w in workers if w != "stat"]
     expect_names = sorted(set(submitted))
     nviol = [0]
@@ -209,6 +228,10 @@ def run_case(case, acc):
         else:
             nviol[0] += 1
 
+    return judge
+
+
+def _explore(acc, case, fx, workers, mode, init, judge):
     if "schedule" in case:
         # replay of one recorded schedule without the explorer (twice: observations must be identical)
         keys = []
@@ -313,3 +336,52 @@ def _toys(case, acc):
     acc.state("toys")
     acc.step(4)
     acc.ok()
+
+
+# ------------------------------------------------------------------------------------------------ line granularity
+def _line(case, acc):
+    """thread mode, 2 workers, ONE preemption placed before every single source line the first worker executes inside
+    panoptica/* (also inside the 'atomic' compute phase), the other worker then runs as far as it can: exposes shared
+    in-memory state that the lock/file-level exploration treats as one step"""
+    workers, first, lo, hi = case["workers"], case["first"], case["lo"], case["hi"]
+    mode, init = "thread", "header"
+    acc.case("line", tuple(workers), first, lo, hi)
+    fx = Fixture(init, workers)
+    judge = make_judge(acc, {"kind": "line", "workers": workers, "first": first}, fx, workers, mode, init)
+    root = seams.REPO.rstrip("/") + "/panoptica"
+
+    def run(idx):
+        bodies, locks, _c = fx.make(workers, mode)()
+        ex = sched.Execution(bodies, locks)
+        ex.line_targets = {first: idx}
+        ex.line_root = root
+        order = [first, 1 - first]
+
+        def policy(e, en):
+            cur = e.last
+            if cur is None:
+                return order[0] if order[0] in en else en[0]
+            w = e.workers[cur]
+            if cur in en and not (w.pending is not None and w.pending[0] == "line"):
+                return cur
+            others = [x for x in en if x != cur]
+            return others[0] if others else cur
+
+        ex.run([], stop=False, policy=policy)
+        return ex
+
+    # number of line events of the first worker (a run whose target is never reached)
+    probe = run(-1)
+    total = getattr(probe.workers[first], "nlines", 0)
+    acc.count(f"line_events_worker{first}_{'_'.join(workers)}", total if lo == 0 else 0)
+    n = 0
+    for idx in range(max(lo, 1), min(hi, total + 1)):
+        ex = run(idx)
+        n += 1
+        acc.step()
+        acc.state("line", tuple(workers), first, idx)
+        c2sched = {"line_index": idx, "at": getattr(ex.workers[first], "line_at", None)}
+        judge(ex, None, [c2sched])
+    if n:
+        acc.sample({"line_granularity": {"workers": workers, "preempted_worker": first, "line_events_of_that_worker": total, "preemption_points_in_this_block": [max(lo, 1), min(hi, total + 1) - 1]}})
+    agg.drop_exit_handlers()
